@@ -619,7 +619,9 @@ func (fh *finishedHash) getPublicObj() FinishedHash {
 		}
 
 		res.Prfv2 = fh.prf
-		res.Prf = prfFuncV2ToV1(fh.prf)
+		if fh.prf != nil {
+			res.Prf = prfFuncV2ToV1(fh.prf)
+		}
 
 		return res
 	}
